@@ -22,15 +22,17 @@ as DESIGN section 3 C07 says):
     so that in every block every column span holds only characters of that
     row's cell of that column (in order), and for overflow="fold" columns whose
     span is wide enough for the cell, exactly all of its non-whitespace characters;
-(5) at widths at or above a conservative "ample" width no fold column is
-    narrower than its cell contents need.
+(5) at widths at or above a conservative "ample" width nothing may have been
+    squeezed: every fold cell whose need is within its column's own width cap
+    (max_width / width, if any) must be shown completely whatever the span says,
+    and no uncapped fold column is narrower than its cell contents need.
 
 Widths below struct_min(description) are only executed (crash = violation).
 
 Bounds and cost (measured; the machine was shared, so CPU seconds are the reliable number):
-quick    18.6 k tables, 237.8 k renders, ~2.2 k distinct outcomes, ~580 CPU-s (~40 s wall on 16 idle cores);
-thorough ~240 k tables, ~3.0 M renders, ~5.4 k distinct outcomes, ~9 k CPU-s (~10 min wall on 16 idle cores;
-         53 min measured at load average ~100, before the wide-character runs joined the menu).
+quick    21.9 k tables, 280.2 k renders, ~2.1 k distinct outcomes, ~590 CPU-s (~40 s wall on 16 idle cores);
+thorough ~290 k tables, ~3.6 M renders (extrapolated from every 9th shard after the alphabet grew; the last full
+         run, before that, was 242 k tables / 3.05 M renders / 9.3 k CPU-s), ~10-11 k CPU-s (~12 min on 16 idle cores).
 DESIGN planned "<=4 columns, <=3+2 deviations" at 0.8 ms per render; a render of a 3x3 table with nested
 cells costs 9 ms, so the deviation bound is per (shape, filling, default overflow) unit -- see _units().
 """
@@ -476,8 +478,24 @@ def judge(desc, W, lines):
 
     span_text = [[_nonws(cells[i], a, b_) for a, b_ in spans] for i in range(len(body))]
     blank = [not s and not any(span_text[i]) for i, s in enumerate(is_sep)]
-    exact_ok = [[fold[c] and (spans[c][1] - spans[c][0]) >= cell_need(cid, no_wrap[c]) + pad for c, cid in enumerate(row)]
-                for row in rows]
+    flex = any(_copt(desc, i, "ratio") is not None for i in range(n))
+    ample = avail >= ample_min(desc) and not flex
+    caps = []
+    for c in range(n):
+        cs = [x for x in (_copt(desc, c, "max_width"), _copt(desc, c, "width")) if x is not None]
+        caps.append(min(cs) if cs else None)
+
+    def must_be_exact(c, cid):
+        if not fold[c]:
+            return False
+        need = cell_need(cid, no_wrap[c])
+        if spans[c][1] - spans[c][0] >= need + pad:
+            return True
+        # at ample width nothing may have been squeezed: the column has room for its
+        # content, or for what its own width cap allows -- whatever the span says
+        return ample and (caps[c] is None or caps[c] >= need)
+
+    exact_ok = [[must_be_exact(c, cid) for c, cid in enumerate(row)] for row in rows]
 
     def block_ok(r, i, j, use_exact):
         for c in range(n):
@@ -524,8 +542,6 @@ def judge(desc, W, lines):
                   "characters of its own cell; rows %r spans %r lines %r" % (rows, spans, body))
 
     # -- (5) no fold column starved at ample width
-    flex = any(_copt(desc, i, "ratio") is not None for i in range(n))
-    ample = avail >= ample_min(desc) and not flex
     if ample:
         for c in range(n):
             if not fold[c] or _copt(desc, c, "max_width") is not None or _copt(desc, c, "width") is not None:
@@ -549,7 +565,9 @@ def judge(desc, W, lines):
 T_ATOMS = [
     ("box", ["NONE", "ASCII", "SIMPLE", "MINIMAL", "SQUARE"]),
     ("show_header", [False]), ("show_footer", [True]), ("show_edge", [False]), ("show_lines", [True]),
-    ("leading", [1, 2]), ("padding", [0, [0, 2], [1, 1]]), ("pad_edge", [False]),
+    ("leading", [1, 2]),
+    # (top, right, bottom, left): symmetric, left > right, right > left, top/bottom asymmetric
+    ("padding", [0, [0, 2], [1, 1], [0, 1, 0, 3], [0, 0, 0, 2], [0, 3, 0, 1], [1, 0, 0, 0]]), ("pad_edge", [False]),
     ("collapse_padding", [True]), ("expand", [True]), ("width", [["rel", 3]]), ("min_width", [20]),
     ("title", [TITLE]), ("caption", [CAPTION]), ("row_styles", [["on red", ""]]), ("end_section", [0, 1]),
 ]
@@ -620,6 +638,8 @@ def widths_for(desc):
 
 
 SLICES = 48
+# column width options of family P (max_width=1 exists only here: a cap below the need of wide cells)
+P_CATOMS = [("max_width", 1), ("max_width", 3), ("width", 4), ("min_width", 6), ("ratio", 1)]
 A_TOPTS = [(), ((("t", "expand"), True),), ((("t", "box"), "NONE"),), ((("t", "show_lines"), True),),
            ((("t", "padding"), 0),)]
 
@@ -665,6 +685,11 @@ def plan(tier, seed):
     for n, rows, parts in ((1, 1, 1), (2, 1, 2), (3, 1, 6), (1, 2, 2)):
         for i in range(parts):
             shards.append({"fam": "A", "n": n, "rows": rows, "i": i, "parts": parts})
+    # family P: full product of the padding-related table options x one column width option
+    for n, rows in (((2, 1), (3, 1), (2, 2)) if tier == "quick" else ((2, 1), (3, 1), (2, 2), (3, 2), (4, 1))):
+        for off in ((0,) if tier == "quick" else (0, 3)):
+            for i in range(2):
+                shards.append({"fam": "P", "n": n, "rows": rows, "off": off, "i": i, "parts": 2})
     if tier == "thorough":
         for i in range(12):
             shards.append({"fam": "A", "n": 2, "rows": 2, "i": i, "parts": 12})
@@ -720,6 +745,29 @@ def _cases(sh, tier):
             for bo in ("ellipsis", "fold"):
                 for combo in A_TOPTS:
                     yield _apply(n, rows, bo, combo)
+    elif fam == "P":
+        n, nrows = sh["n"], sh["rows"]
+        rows = filling(n, nrows, sh["off"])
+        pads = [None] + dict(T_ATOMS)["padding"]
+        catoms = [None] + [(c, name, val) for c in range(n) for name, val in P_CATOMS]
+        idx = 0
+        for padv in pads:
+            for collapse in (False, True):
+                for pad_edge in (True, False):
+                    for ca in catoms:
+                        idx += 1
+                        if idx % sh["parts"] != sh["i"]:
+                            continue
+                        combo = []
+                        if padv is not None:
+                            combo.append((("t", "padding"), padv))
+                        if collapse:
+                            combo.append((("t", "collapse_padding"), True))
+                        if not pad_edge:
+                            combo.append((("t", "pad_edge"), False))
+                        if ca is not None:
+                            combo.append((("c", ca[0], ca[1]), ca[2]))
+                        yield _apply(n, rows, "fold", combo)
     elif fam == "B":
         vec = B_VECTORS[sh["vec"]]
         for bo in ("ellipsis", "fold"):
@@ -778,13 +826,16 @@ def describe(tier, seed, res):
                 "(%s) or one non-default option of one column (%s); a ratio deviation switches expand on; table width = "
                 "struct_min+3. All sets of <=k deviations are enumerated. Family A: every filling of the 1x1, 2x1 and 1x2 "
                 "(columns x rows) tables over the full menu and of the 3x1 table%s over the reduced menu %r x 5 table "
-                "option vectors x {ellipsis, fold}%s. "
+                "option vectors x {ellipsis, fold}; family P (fold): %s x every padding value (default + %d) x collapse_padding x "
+                "pad_edge x (no column option or one of %r on one column)%s. "
                 "Every console width in [struct_min, struct_min+10] + {40, 80} (tables with a fixed width: console widths "
                 "width-1, width, width+1, width+7, 80). A case is non-trivial when the expansion clause or an exact "
                 "fold-content clause was judged or some row needed more than one line; distinct = distinct outcome "
                 "signatures (box kind, columns, rows, slack class, clauses judged, border lines, wrapped, ample, title)."
                 % (utxt, MENU, ", ".join(a for a, _ in T_ATOMS), ", ".join(a for a, _ in C_ATOMS),
                    " and the 2x2 table" if tier == "thorough" else "", A_MENU,
+                   "2x1, 3x1, 2x2 offset 0" if tier == "quick" else "2x1, 3x1, 2x2, 3x2, 4x1 offsets 0 and 3",
+                   len(dict(T_ATOMS)["padding"]), P_CATOMS,
                    "; family B: 6 columns x 8 rows x 20 option vectors x 2 fillings x {ellipsis, fold}" if tier == "thorough"
                    else "; plus rotating slice %d of %d of the three-deviation vectors on the 2x2 and 3x1 shapes "
                         "(fold, offset 0)" % (seed % SLICES, SLICES)),
@@ -792,7 +843,7 @@ def describe(tier, seed, res):
             "cell widths = Rich's CELL_WIDTHS data scanned linearly (vf/width.py)",
             "for boxes without visible column dividers (None, SIMPLE) the column spans are the implementation's own width vector (checked to add up to the line width)",
             "struct_min = per column the widest unbreakable piece (2 for wide characters, the whole line for no_wrap, 5 for the nested Panel/Table, explicit width/min_width) + full horizontal padding + borders; below it a case is only executed",
-            "exact fold content is demanded only where the column span read from the output is wide enough for the cell plus full padding; at or above ample_min (columns x (largest need + padding + 1) + borders, no ratio columns) the span itself must be wide enough",
+            "exact fold content is demanded where the column span read from the output is wide enough for the cell plus full padding, and, whatever the span, at or above ample_min (columns x (largest need + padding + 1) + borders, no ratio columns) for every cell whose need is within the column's own width cap (max_width / width), if any; there an uncapped fold column must also be at least as wide as its need",
             "a table width option larger than the console width is not judged for expansion",
         ],
         "coverage": {"tables": res.counters.get("tables", 0)},
